@@ -117,9 +117,11 @@ def run(ctx):
 
     # which repairs are present
     skip_re = r"bind->id\s*!=\s*BINDING_ID_TOMBSTONE|bind->id\s*==\s*BINDING_ID_TOMBSTONE"
-    skip = [bool(re.search(skip_re, b)) for b in (run_b, wf_b, des_b)]
+    skip = [bool(re.search(skip_re, b)) for b in (run_b, wf_b)]
     wf_oneshot = "TICKIT_BIND_ONESHOT" in wf_b
-    guarded = bool(re.search(r"is_iterating\s*=\s*true", unb_b))
+    # the unbind notification is the last thing unbind_event_id does with the binding: after free(bind), followed by return
+    m_free, m_call = unb_b.find("free("), unb_b.find("TICKIT_EV_UNBIND, NULL")
+    notify_last = 0 <= m_free < m_call and bool(re.search(r"TICKIT_EV_UNBIND, NULL[^;]*;\s*return\s*;", unb_b))
     if len(set(skip)) != 1:
         miss.append("tombstone-test-mixed:" + "".join("1" if s else "0" for s in skip))
 
@@ -144,10 +146,10 @@ def run(ctx):
     body += "/-- which of the C16 repairs the working tree contains (read from the source text) -/\n"
     body += f"def skipTomb : Bool := {b(all(skip))}\n"
     body += f"def wfOneshot : Bool := {b(wf_oneshot)}\n"
-    body += f"def guardedUnbind : Bool := {b(guarded)}\n"
+    body += f"def notifyLast : Bool := {b(notify_last)}\n"
     body += "end Tickit.Gen.Bindings\n"
     write("Bindings", body)
     info["bindings"] = {"consts": consts, "tombstone": tomb, "kept_mask": kept, "unbind_test": unb_test, "destroy_test": des_test,
-                        "repairs_present": {"skipTomb": all(skip), "wfOneshot": wf_oneshot, "guardedUnbind": guarded}}
+                        "repairs_present": {"skipTomb": all(skip), "wfOneshot": wf_oneshot, "notifyLast": notify_last}}
     for x in miss:
         info["untranslatable"].append("bindings:" + x)
